@@ -177,6 +177,7 @@ def check_reactor(rx, its_list=None, smarts=None):
     if smarts is not None:
         sub = rx.substrate if isinstance(rx.substrate, str) else None
         sub_frags = R.fragments_canonical(sub) if sub else None
+        tcg_s, its_ok = None, False
         for k, s in enumerate(smarts):
             ST["smarts_results"] = ST.get("smarts_results", 0) + 1
             if not s or ">>" not in s:
@@ -193,6 +194,29 @@ def check_reactor(rx, its_list=None, smarts=None):
                 ca, cb = R.counts(a), R.counts(b)
                 if ca is None or cb is None or ca != cb:
                     FAIL.append((_finding, "not-conserved", {**wit, "result": s}, f"result #{k} does not conserve elements/hydrogens/charge: {ca} vs {cb}"))
+                    continue
+            # (c) on the returned string itself: its atom maps must describe the template's changes too.  Only for
+            # results without aromatic atoms (bond orders of a string are then unambiguous), and only when every glued
+            # ITS of this reactor passed the same comparison (otherwise the ITS-level report already covers it).
+            other = a if rx.invert else b
+            SA, SB = R.side_tables(side), R.side_tables(other)
+            if SA is None or SB is None or set(SA[0]) != set(SB[0]) or any(v[3] for v in list(SA[0].values()) + list(SB[0].values())):
+                continue
+            if tcg_s is None:
+                tcg_s = R.change_graph_from_sides(A, B)
+                try:
+                    its_ok = all(R.cg_iso(R.change_graph_from_sides(*R.its_sides(g)), tcg_s) for g in rx.its_list)
+                except Exception:
+                    its_ok = False
+            if not its_ok:
+                continue
+            ST["cg_str"] = ST.get("cg_str", 0) + 1
+            cg_s = R.change_graph_from_sides(SA, SB)
+            if not R.cg_iso(cg_s, tcg_s):
+                FAIL.append((_finding, "change-graph-of-string", {**wit, "result": s,
+                                                                  "result_changes": sorted((sorted(e), d["d"]) for *e, d in cg_s.edges(data=True))[:8],
+                                                                  "template_changes": sorted((sorted(e), d["d"]) for *e, d in tcg_s.edges(data=True))[:8]},
+                             f"result #{k}: the atom maps of the returned reaction do not describe the template's changes although every glued ITS does"))
 
 
 def install():
@@ -240,7 +264,7 @@ def install():
 def flush(ctx):
     for k_src, k_dst in (("its_evals", "its_monitor_evals"), ("smarts_evals", "smarts_monitor_evals"), ("its_results", "its_results_checked"),
                          ("smarts_results", "smarts_results_checked"), ("ident", "substrate_identity_checked"), ("cg", "change_graph_checked"),
-                         ("bal", "balance_checked"), ("ringclose", "results_with_ring_closing_on_existing_bond"), ("multih", "results_with_multi_h_transfer")):
+                         ("bal", "balance_checked"), ("cg_str", "change_graph_of_string_checked"), ("ringclose", "results_with_ring_closing_on_existing_bond"), ("multih", "results_with_multi_h_transfer")):
         ctx.count(k_dst, ST.get(k_src, 0))
         ST[k_src] = 0
     for r, n in ST["skipped"].items():
@@ -257,7 +281,9 @@ def flush(ctx):
 
 
 SYNTH_SUBSTRATES = ["ClCN", "C=CC=CC=C", "C=CC=C.C=C", "CC(=O)C.NCC", "CC=O.NO", "CC(=O)O.OC", "CCBr.N", "C=C.Br", "CC=C.Br",
-                    "NCCCl", "C1=CC=CC1.C=CC=O", "OCC(=O)O", "CC(=O)Cl.N", "C=CC(C)=C.C=CC(=O)OC", "CC(C)=O.O", "CCC(C)=O.O"]
+                    "NCCCl", "C1=CC=CC1.C=CC=O", "OCC(=O)O", "CC(=O)Cl.N", "C=CC(C)=C.C=CC(=O)OC", "CC(C)=O.O", "CCC(C)=O.O",
+                    # both template components inside one molecule, on atoms that are already bonded (multiple bonds included)
+                    "BrCC", "BrC=C", "BrC#C", "BrCC#C", "BrC#CC", "CC(Br)C#C", "BrC#N", "C=C=O", "ClC#C", "ClC=C=O", "OC#C", "NC#CCl"]
 SYNTH_TEMPLATES = [
     "[CH3:1][Cl:2].[NH3:3]>>[CH3:1][NH2:3].[ClH:2]",
     "[CH2:1]=[CH:2][CH:3]=[CH2:4].[CH2:5]=[CH2:6]>>[CH2:1]1[CH:2]=[CH:3][CH2:4][CH2:5][CH2:6]1",
@@ -266,6 +292,10 @@ SYNTH_TEMPLATES = [
     "[CH2:1]=[CH2:2].[BrH:3]>>[CH3:1][CH2:2][Br:3]",
     "[CH3:1][C:2](=[O:3])[CH3:4].[N:5]([H:7])([H:8])[CH3:6]>>[CH3:1][C:2](=[N:5][CH3:6])[CH3:4].[O:3]([H:7])[H:8]",
     "[CH3:1][Cl:2].[N:3]([H:4])([H:5])[H:6]>>[CH3:1][N:3]([H:5])[H:6].[Cl:2][H:4]",
+    # coupling with loss of HBr / HCl / water between two sites that may sit in one molecule
+    "[CH3:1][Br:2].[CH3:3][H:4]>>[CH3:1][CH3:3].[Br:2][H:4]",
+    "[CH3:1][Cl:2].[CH4:3]>>[CH3:1][CH3:3].[ClH:2]",
+    "[CH3:1][OH:2].[CH4:3]>>[CH3:1][CH3:3].[OH2:2]",
     # water relays a hydrogen: O6 gives H7 to the carbonyl oxygen and receives H5 from the alpha carbon
     "[CH3:1][C:2](=[O:3])[CH2:4][H:5].[O:6]([H:7])[H:8]>>[CH3:1][C:2]([O:3][H:7])=[CH2:4].[O:6]([H:5])[H:8]",
 ]
